@@ -204,8 +204,15 @@ static void push_evt(m_mod_t *mod, evt_priv_t *evt) {
      * M_SRC_INTERNAL timer (meaning that batching time has elapsed),
      * run the pubsub callback!
      */
+    /*
+     * Effective batch size: with a batch timeout but no batch size configured,
+     * only the timeout (or an high priority event) flushes the batch.
+     * Computed here from the two settings, so that it does not depend on the order
+     * in which (and how often) the user configured them.
+     */
+    const size_t batch_len = (mod->batch.len == 0 && mod->batch.timer.ns != 0) ? SIZE_MAX : mod->batch.len;
     if (force ||
-        m_queue_len(mod->batch.events) >= mod->batch.len) {
+        m_queue_len(mod->batch.events) >= batch_len) {
 
         /*
          * Avoid the user changing the list of batched events while parsing them,
